@@ -70,4 +70,11 @@ CONFIG = {
         "quick": {"parts": [part("TestC11", 16, 25)]},
         "thorough": {"parts": [part("TestC11", 32, 400, timeout=3000)]},
     },
+    "C10": {
+        "level": "exploration",
+        "rule": "rapid-generated schema (1-2 tables, partitionBy a subset of the table's group-by dims in sorted or unsorted order, or none for tables grouping by all dims) x dataset x cluster configuration (1-4 partitions, 1-2 leaders, 1-2 followers per partition; real in-process WAL replication through DBOpts.Follow / DB.Follow and real remote query handlers) x leader chosen per point x 1-3 queries from the full grammar. Differential oracle: every leader query returns the standalone database's rows; accounting oracle: per table the partitions' SELECT * rows carry exactly the standalone's _points per (key, period) - each accepted point applied by exactly one partition - and redundant followers of a partition are equal. Non-trivial: >= 2 partitions, >= 3 points and a query that regroups, filters or orders.",
+        "assumptions": ["cluster quiescence is established from leader/follower progress hooks (barrier marker dispatched, last submitted entry delivered, nothing in flight, counters stable twice), never by sleeping", "virtual clocks of all nodes pinned to the newest generated timestamp before querying", "the cluster-planner findings listed under C11 are excluded by construction (same query normalisation)", "tables with named group-by dims are always partitioned by some of those dims (listed finding pushdown-splits-table-key)"],
+        "quick": {"parts": [part("TestC10", 16, 12)]},
+        "thorough": {"parts": [part("TestC10", 32, 200, timeout=3000)]},
+    },
 }
